@@ -49,6 +49,10 @@ impl SassError {
         }
     }
 
+    pub(crate) fn is_raw(&self) -> bool {
+        matches!(self.kind, SassErrorKind::Raw(..))
+    }
+
     pub(crate) fn raw(self) -> (String, Span) {
         match self.kind {
             SassErrorKind::Raw(string, span) => (string, span),
